@@ -604,7 +604,13 @@ func printable(s string) string {
 
 var clauseSuffixRe = regexp.MustCompile(`(#\d+|~\d+)+$`)
 
-func clauseKey(name string) string { return clauseSuffixRe.ReplaceAllString(name, "") }
+func clauseKey(name string) string {
+	// the package-wide operands-kept contract is one clause per function: every mutating call is an instance
+	if strings.Contains(name, "/operand-kept@") {
+		return name[:strings.Index(name, "/")] + "/operand-kept@"
+	}
+	return clauseSuffixRe.ReplaceAllString(name, "")
+}
 
 func isContractClause(name string) bool {
 	i := strings.Index(name, "/")
@@ -612,12 +618,12 @@ func isContractClause(name string) bool {
 		return false
 	}
 	rest := name[i+1:]
-	for _, k := range []string{"post@", "at-eval@", "pre@", "trace@", "on-call@", "on-store@", "on-map-update@", "no-store@", "must-defer@", "full-loop@"} {
+	for _, k := range []string{"post@", "at-eval@", "pre@", "trace@", "on-call@", "on-store@", "on-map-update@", "no-store@", "must-defer@", "full-loop@", "operand-kept@"} {
 		if strings.HasPrefix(rest, k) {
 			return true
 		}
 	}
-	return false
+	return strings.Contains(rest, "/operand-kept@")
 }
 
 func clauseAllDischarged(base map[string]BaseEntry, key string) (all bool, seen bool) {
